@@ -137,6 +137,15 @@ def impl_checks(ctx):
         d, how = derivative(lambda q: oil.b_o_bubblepoint_Standing(T, api, gg, q), r)
         got = float(oil.db_o_dgor_Standing(T, api, gg, r))
         ev += 1
+        # the GOR as an object-dtype array of Python floats (a column of an object-cast frame): parent and derivative both answer
+        try:
+            r_obj = np.array([float(r), float(r) * 0.5], dtype=object)
+            par_obj = np.asarray(oil.b_o_bubblepoint_Standing(T, api, gg, r_obj), float)
+            der_obj = np.asarray(oil.db_o_dgor_Standing(T, api, gg, r_obj), float)
+            if not (dom.relclose(float(der_obj[0]), got, 1e-12) and dom.relclose(float(par_obj[0]), float(oil.b_o_bubblepoint_Standing(T, api, gg, r)), 1e-12)):
+                bad("db_o_dgor_Standing / b_o_bubblepoint_Standing give other values for an object-dtype GOR array holding the same numbers", dict(T=T, api=api, gg=gg, Rs=r), [float(x) for x in der_obj], got)
+        except Exception as e:  # noqa: BLE001
+            bad("db_o_dgor_Standing fails for an object-dtype GOR array although its parent b_o_bubblepoint_Standing answers", dict(T=T, api=api, gg=gg, Rs=[float(r), float(r) * 0.5], dtype="object"), repr(e)[:200], got)
         kinds["dBo:" + how] = kinds.get("dBo:" + how, 0) + 1
         if not dom.relclose(got, d, 1e-9):
             bad("db_o_dgor_Standing differs from d(b_o_bubblepoint_Standing)/dRs",
